@@ -90,9 +90,9 @@ def evaluate(engine: Engine, slot, history: dict, use_memo=True):
             need[key] = ref
     by_date = {}
     for key, ref in need.items():
-        by_date.setdefault(ref["date"], []).append((key, ref))
-    for date in sorted(by_date):
-        items = by_date[date]
+        by_date.setdefault((ref["date"], bool(ref.get("np_strict"))), []).append((key, ref))
+    for date, strict in sorted(by_date):
+        items = by_date[(date, strict)]
         res = slot.R.call("sim.c14", "run_references_batch", date, [r for _, r in items], timeout_s=900)
         for (key, ref), ro in zip(items, res):
             outcomes[key] = ro
